@@ -108,9 +108,10 @@ fn cmd_check(args: &[String]) {
     let t0 = now();
     let vd = verif_dir();
     let known = load_known(&vd);
+    // the per-property numbers in the Prop tables are base counts; both tiers run a fixed multiple
     let total_cases = o.cases.unwrap_or(match o.tier {
-        Tier::Quick => prop.cases.0,
-        Tier::Thorough => prop.cases.1,
+        Tier::Quick => prop.cases.0 * 8,
+        Tier::Thorough => prop.cases.1 * 3,
     });
 
     // the release-build half runs in a child process (a different binary)
